@@ -4,7 +4,8 @@
     such that "a lower estimate of x exceeds an upper estimate of y" implies y < x. *)
 From Dashu Require Import Base.Prelude Cross.XVal Cross.XOrdModel Cross.XDispatch Cross.XOrdProofs Cross.XPrimProofs
   Cross.XRatioProofs Cross.XDispatchProofs Cross.XHashProofs Cross.XEstInstance
-  Cross.XLog2Model Cross.XLog2Flocq Cross.XEstF32Model Cross.XEstF32.
+  Cross.XLog2Model Cross.XLog2Flocq Cross.XEstF32Model Cross.XEstF32 Cross.XPrimHashModel Cross.XPrimHashProofs Cross.XHashM127 Cross.XLog2Refuted Cross.XLog2ParamsTie Cross.XLog2Large Cross.XEstF32Any.
+From DashuGen Require Import XLog2Params.
 From Coq Require Import Reals.
 From Flocq Require Import Core IEEE754.BinarySingleNaN.
 Open Scope Z_scope.
@@ -262,3 +263,98 @@ Theorem C14_float_same_base_f32 : forall lg, lg_contract lg -> forall w, 8 <= w 
   Some (fsame_raw lg w B s1 e1 s2 e2) = spec_cmp (fval B s1 e1) (fval B s2 e2).
 Proof. exact fsame_raw_correct. Qed.
 Print Assumptions C14_float_same_base_f32.
+
+(** ------------------------------------------------------------------------------------------------
+    num-order's own NumHash of the primitives (transcribed from num-order 1.2.0 src/hash.rs, Cross/XPrimHashModel.v)
+    against the hashing of the big numbers: equal values, equal i128 *)
+Theorem C14_prim_int_hash : forall bits (signed : bool) x, (bits = 8 \/ bits = 16 \/ bits = 32 \/ bits = 64 \/ bits = 128) ->
+  (if signed then - 2 ^ (bits - 1) <= x < 2 ^ (bits - 1) else 0 <= x < 2 ^ bits) ->
+  prim_int_hash bits signed x = int_hash x.
+Proof. exact prim_int_hash_eq. Qed.
+Print Assumptions C14_prim_int_hash.
+
+Theorem C14_prim_float_hash : forall mb eb bits, 0 <= mb -> mb + 1 < 127 -> 1 <= eb -> 0 <= bits < 2 ^ (mb + eb + 1) ->
+  forall man ex t n d hb, decode mb eb bits = DFin man ex ->
+  match t with TF B _ _ => 2 <= B | TQ _ d => 0 < d | _ => True end ->
+  frac_of t = Some (n, d) -> hash_asis t = Some hb ->
+  n * fden 2 ex = fnum 2 man ex * d ->
+  prim_float_hash mb eb bits = hb.
+Proof. exact prim_float_hash_equal. Qed.
+Print Assumptions C14_prim_float_hash.
+
+(** ------------------------------------------------------------------------------------------------
+    rationals whose denominator is a multiple of 2^127 - 1 (excluded from C14_equal_values_equal_hash above) *)
+Theorem C14_ratio_hash_m127_reduced : forall n d, 0 < d -> Z.gcd n d = 1 -> d mod M127 = 0 ->
+  qrepr_hash n d = Some 0 /\ spec_hash_fin n d = 0.
+Proof. exact qrepr_hash_m127_reduced. Qed.
+Print Assumptions C14_ratio_hash_m127_reduced.
+
+Theorem C14_ratio_hash_any_form : forall n d h, 0 < d -> qrepr_hash n d = Some h ->
+  exists n' d', 0 < d' /\ n * d' = n' * d /\
+    ((d' mod M127 <> 0 /\ hash_of n' d' h) \/ (d' mod M127 = 0 /\ (n' = 0 \/ Z.rem n' M127 <> 0) /\ h = 0)).
+Proof. exact qrepr_hash_any. Qed.
+Print Assumptions C14_ratio_hash_any_form.
+
+(** finding F07 (repaired): the float estimator as it was (one outward step for three roundings) returned an upper
+    bound below the true logarithm - as-is model of the old code, the libm values of the run, the exact inequality *)
+Theorem C14_float_log2_pinned_refuted :
+  (B2R (f_of_bits (f_to_bits (snd (f_log2_bounds_pinned lg_tab 64 10 wit_s wit_e)))) <
+   log2R (IZR wit_s) + IZR wit_e * log2R 10)%R.
+Proof. exact f_log2_pinned_refuted. Qed.
+Print Assumptions C14_float_log2_pinned_refuted.
+
+(** ------------------------------------------------------------------------------------------------
+    the constants / table-like fragments of the estimators are REGENERATED from the Rust sources on every run
+    (coq/gen/XLog2Params.v); the estimators rebuilt over the generated values equal the model the theorems are about *)
+Theorem C14_log2_params_tie : forall lg,
+  (forall x, u_log2_bounds_p lg x = u_log2_bounds lg x) /\
+  (f_to_bits (f_dyadic (2 ^ 23 - large_adjust_eps) (-23)) = f_to_bits c_adj_lo /\
+   f_to_bits (f_dyadic (2 ^ 23 + large_adjust_eps) (-23)) = f_to_bits c_adj_hi) /\
+  (forall w B s e, f_log2_bounds_p lg w B s e = f_log2_bounds lg w B s e) /\
+  (forall ub w B s, digits_ub_p lg ub w B s = digits_ub32 lg ub w B s) /\
+  2 ^ fst hash_mersenne - snd hash_mersenne = M127.
+Proof.
+  intros lg. split; [exact (tie_uint lg) | ]. split; [exact tie_large | ]. split; [exact (tie_float lg) | ].
+  split; [exact (tie_digits lg) | exact tie_hash].
+Qed.
+Print Assumptions C14_log2_params_tie.
+
+(** ------------------------------------------------------------------------------------------------
+    integers of ANY size: the multi-word estimator log2_bounds_large (two products with 1 -+ 2^-22) on binary32.
+    The error analysis of the products is C12's (Int/GrlLog2StdProof.v, real numbers); finiteness and absence of
+    overflow of the IEEE operations are proved here.  Word size 32..64, bit length below 2^62. *)
+Theorem C14_f32_large_log2_bounds : forall lg, lg_contract lg -> forall w, 32 <= w <= 64 -> forall x,
+  2 ^ (2 * w) <= x -> Z.log2 x < 2 ^ 62 ->
+  let b := large_log2_bounds lg w x in
+  bd 64 (fst b) /\ bd 64 (snd b) /\ (B2R (fst b) <= log2R (IZR x) <= B2R (snd b))%R /\ (0 <= B2R (fst b))%R.
+Proof. exact large_log2_sound. Qed.
+Print Assumptions C14_f32_large_log2_bounds.
+
+Theorem C14_f32_ibig_log2_bounds : forall lg, lg_contract lg -> forall w, 32 <= w <= 64 -> forall z,
+  z <> 0 -> Z.log2 (Z.abs z) < 2 ^ 62 ->
+  let b := ibig_log2_bounds lg w z in
+  bd 64 (fst b) /\ bd 64 (snd b) /\ (B2R (fst b) <= log2R (IZR (Z.abs z)) <= B2R (snd b))%R.
+Proof. exact ibig_log2_sound. Qed.
+Print Assumptions C14_f32_ibig_log2_bounds.
+
+Theorem C14_f32_ratio_log2_bounds_any : forall lg, lg_contract lg -> forall w, 32 <= w <= 64 -> forall n d,
+  n <> 0 -> 0 < d -> Z.log2 (Z.abs n) < 2 ^ 62 -> Z.log2 d < 2 ^ 62 ->
+  let b := q_log2_bounds lg w n d in
+  is_finite (fst b) = true /\ is_finite (snd b) = true /\
+  (B2R (fst b) <= log2R (IZR (Z.abs n) / IZR d) <= B2R (snd b))%R.
+Proof. exact q_log2_sound_any. Qed.
+Print Assumptions C14_f32_ratio_log2_bounds_any.
+
+Theorem C14_f32_float_log2_bounds_any : forall lg, lg_contract lg -> forall w, 32 <= w <= 64 -> forall B s e,
+  2 <= B < 2 ^ 128 -> s <> 0 -> Z.log2 (Z.abs s) < 2 ^ 62 -> Z.abs e <= 2 ^ 63 ->
+  let b := f_log2_bounds lg w B s e in
+  is_finite (fst b) = true /\ is_finite (snd b) = true /\
+  (B2R (fst b) <= log2R (IZR (Z.abs s)) + IZR e * log2R (IZR B) <= B2R (snd b))%R.
+Proof. exact f_log2_sound_any. Qed.
+Print Assumptions C14_f32_float_log2_bounds_any.
+
+(** THE PROPERTY, first sentence, with the library's own f32 estimates and operands of any size a machine can hold *)
+Theorem C14_num_ord_f32_any : forall lg, lg_contract lg -> forall w, 32 <= w <= 64 -> forall a b r,
+  wf a -> wf b -> dom_any w a -> dom_any w b -> ord_raw lg w a b = Some r -> r = spec_cmp (val a) (val b).
+Proof. exact ord_raw_any_correct. Qed.
+Print Assumptions C14_num_ord_f32_any.
